@@ -124,34 +124,26 @@ Theorem C26_dict_roundtrip : forall vals : list (list N),
 Proof. exact dict_roundtrip. Qed.
 Print Assumptions C26_dict_roundtrip.
 
-(* ---- known findings (class predicates in Model_Binary.v / Model_Bitpack.v; both reproduced on
-   the real code, see KNOWN_FINDINGS.txt). The faithful models violate the property there; the
-   round-trip / limit theorems of these two codecs outside the classes are not claimed yet. ---- *)
+(* ---- regression of the binary chunker defect repaired in repo commit b9f1526 ----
+   256 one-byte values followed by 256 values of 255 bytes (every value shorter than 256 bytes).
+   Before the repair the chunker returned the doubled window that had not fitted: ONE chunk of 512
+   values whose 67588 bytes were recorded as 2052 after the `as u16` cast. Now: 256 values, then
+   32 chunks of 8 values, every chunk within the limit, the table adds up to the buffer, and the
+   page decodes to the values. *)
+Example C26_binary_skewed_lengths_regression :
+  let offsets := map N.of_nat (seq 0 257) ++ map (fun k => 256 + 255 * N.of_nat k) (seq 1 256) in
+  let data := repeat 7 (256 + 255 * 256) in
+  binary_table_ok (4, offsets, data) = true /\
+  match binary_encode 4 offsets data with
+  | Some (bufs, chunks) =>
+      chunks_ok chunks 512 = true /\ length chunks = 33%nat /\ hd ([], 0) chunks = ([1284], 8) /\
+      outcome_eqb (list_eqb nlist_eqb) (binary_decode_page 4 bufs chunks 512) (Ok (var_values_from offsets data)) = true
+  | None => False
+  end.
+Proof. vm_compute. repeat split; reflexivity. Qed.
 
-(* 256 one-byte values followed by 256 values of 255 bytes (every value shorter than 256 bytes):
-   ONE chunk of 512 values whose 67588 bytes are recorded as 2052 after the `as u16` cast, so the
-   chunk table no longer describes the buffer *)
-Theorem C26_binary_doubling_overshoot_refuted :
-  exists offsets data,
-    (forall k, (k < 512)%nat -> nth (S k) offsets 0 - nth k offsets 0 < 256) /\
-    Known_C26_binary_doubling_overshoot (4, offsets, data) = true /\
-    match binary_encode 4 offsets data with
-    | Some (bufs, chunks) => chunks = [([2052], 0)] /\ map nlen bufs = [67588]
-    | None => False
-    end.
-Proof.
-  exists (map N.of_nat (seq 0 257) ++ map (fun k => 256 + 255 * N.of_nat k) (seq 1 256)),
-         (repeat 7 (256 + 255 * 256)).
-  split.
-  - intros k Hk.
-    assert (H : forallb (fun k => nth (S k) (map N.of_nat (seq 0 257) ++ map (fun k => 256 + 255 * N.of_nat k) (seq 1 256)) 0
-                                  - nth k (map N.of_nat (seq 0 257) ++ map (fun k => 256 + 255 * N.of_nat k) (seq 1 256)) 0 <? 256)
-                        (seq 0 512) = true) by (vm_compute; reflexivity).
-    rewrite forallb_forall in H. apply N.ltb_lt. apply H. apply in_seq. lia.
-  - split; vm_compute; [reflexivity | split; reflexivity].
-Qed.
-Print Assumptions C26_binary_doubling_overshoot_refuted.
-
+(* ---- known finding (class predicate in Model_Bitpack.v; reproduced on the real code, see
+   KNOWN_FINDINGS.txt): the faithful model violates the documented per-chunk byte limit ---- *)
 Theorem C26_inline_bitpack_full_u64_refuted :
   exists vals, Forall (fun v => v < 2 ^ 64) vals /\
     Known_C26_inline_bitpack_full_u64 (64, vals) = true /\
